@@ -806,7 +806,7 @@ pub fn err_class(o: &Outcome) -> String {
                 .chars()
                 .map(|c| if c.is_ascii_digit() { '#' } else { c })
                 .collect();
-            s.truncate(60);
+            let s = crate::rng::cut(&s, 60);
             format!("err:{s}")
         }
         Outcome::Panic(m) => panic_site(m),
@@ -834,7 +834,7 @@ pub fn panic_site(s: &str) -> String {
         .chars()
         .map(|c| if c.is_ascii_digit() { '#' } else { c })
         .collect();
-    msg.truncate(48);
+    let msg = crate::rng::cut(&msg, 48);
     format!("panic@{file}:{msg}")
 }
 
